@@ -241,6 +241,11 @@ def build_case(c, r):
         lm = cent
     else:
         x, _ = make_data(r, n, d, str(r.choice(["gauss", "aniso"])))
+        if time and r.random() < 0.6:
+            # a cell count that is not a multiple of the number of time points: the average count per time point
+            # (the predictor's n_obs) is then fractional
+            x = x[:-1]
+            n = n - 1
         lm = None
         if c["lm"] == "m<n":
             lm = x[r.choice(n, size=max(3, n // 4), replace=False)] + 0.05 * r.normal(size=(max(3, n // 4), d))
@@ -250,7 +255,7 @@ def build_case(c, r):
             lm = np.vstack([x, r.normal(size=(3, d))])
     nt = int(r.choice([2, 4]))
     if time:
-        t = np.repeat(np.arange(nt, dtype=float), x.shape[0] // nt)
+        t = (np.arange(x.shape[0]) % nt).astype(float)
         t = t[r.permutation(t.shape[0])]
         x = np.hstack([x, t[:, None]])
         if lm is not None:
